@@ -128,7 +128,7 @@ Proof.
   - eapply Forall_impl; [|exact HT]. intros l Hl. destruct l; auto. apply Hl.
 Qed.
 
-(* without the re-check two first requests each create a bucket: both are admitted with burst = 1 *)
+(* without the re-check two first requests each create a bucket: both are let through with burst = 1 *)
 Lemma no_recheck_refuted :
   exists burst ls sched,
     0 <= burst /\ fresh ls /\
